@@ -157,6 +157,8 @@ def configs(tier):
     for src, dst in (([3, 4], [6, 8]), ([4, 4], [2, 2]), ([3, 4], [3, 4]), ([2, 3], [4, 3])):
         out.append(dict(kind="resample", src=src, dst=dst, via="correction"))
         out.append(dict(kind="resample", src=src, dst=dst, via="coordinate_transformation"))
+    # 3-D: the result of a coordinate transformation carries the DESTINATION system's geometry (origin incl. the reverted z)
+    out.append(dict(kind="relabel3d"))
     # what AffineCorrection hands to the fit: with isometry the points travel as physical coordinates, each in ITS system
     for dim in (2, 3):
         for iso in (True, False):
@@ -189,6 +191,24 @@ def _as_param(cs):
     if S.instrumented():
         return Angle(c, s)
     return math.atan2(S.tofloat(s), S.tofloat(c))
+
+
+def body_relabel3d(cfg, darsia):
+    shape = (2, 2, 2)
+    dims = [2.0, 4.0, 1.0]
+    # concrete, equal origins (a symbolic origin would make the validity mask of the warp symbolic); the
+    # destination label is still non-trivial: origin = (xmin, ymax, zmax) of the destination domain
+    org_s = [1.0, 12.0, 7.0]
+    org_d = [1.0, 12.0, 7.0]
+    a = S.array("a", shape, lo=-10, hi=10)
+    img = darsia.Image(a.copy(), dimensions=list(dims), origin=list(org_s), space_dim=3, scalar=True)
+    dimg = darsia.Image(np.zeros(shape), dimensions=list(dims), origin=list(org_d), space_dim=3, scalar=True)
+    pts = darsia.make_coordinate(np.array([[0.0, 0.0, 0.0], [1.0, 2.0, 0.5], [2.0, 1.0, 1.0]]))
+    PARAMS["vector"] = np.array([0.0, 0.0, 0.0, 1.0, 0.0, 0.0, 0.0])
+    ct = darsia.CoordinateTransformation(img.coordinatesystem, dimg.coordinatesystem, pts, pts)
+    res = ct(img)
+    S.claim("result_is_labelled_with_the_destination_system_in_3d", S.and_(S.eq(list(res.dimensions), list(dimg.dimensions)), S.eq(list(res.origin), org_d), S.eq(res.voxel_size, dimg.voxel_size), tuple(res.img.shape) == shape))
+    S.claim("coordinate_transformation_leaves_input", S.and_(S.eq(img.img, a), S.eq(list(img.origin), org_s)))
 
 
 def body_fit_inputs(cfg, darsia):
@@ -246,6 +266,8 @@ def body(cfg):
         return body_warp(cfg, darsia)
     if k == "fit_inputs":
         return body_fit_inputs(cfg, darsia)
+    if k == "relabel3d":
+        return body_relabel3d(cfg, darsia)
     return body_resample(cfg, darsia)
 
 
